@@ -24,7 +24,7 @@ def ascLexer (s : List Char) : Option Lexer := (lexer_init default (String.ofLis
 
 /-- the iteration protocol on the generated `__next__` (what `for tok in lexer` / repeated `next(lexer, None)` see): the tokens produced
 until `StopIteration` (`true`) or until `__next__` raises anything else (`false`: the ValueError of `float()`).  `g` = fuel of the loops
-of `_read_word`, `f` = number of `__next__` calls allowed (both `text length + 2`: `C15.generated_lex_eq_model`). -/
+of `_read_word`, `f` = number of `__next__` calls allowed (both `text length + 1`, PROVED sufficient: `C15.generated_lex_eq_model`). -/
 def ascLexLoop (isN : String → Bool) (pN : String → Option Py.Atom) (g : Nat) : Nat → Lexer → List LexToken × Bool
   | 0, _ => ([], false)
   | f+1, L =>
@@ -36,7 +36,7 @@ def ascLexLoop (isN : String → Bool) (pN : String → Option Py.Atom) (g : Nat
 def ascLexAll (encF : SwcText.Sci → Int) (s : List Char) : List LexToken × Bool :=
   match ascLexer s with
   | none => ([], false)
-  | some L => ascLexLoop ascIsNumber (ascParseNumber encF) (s.length + 2) (s.length + 2) L
+  | some L => ascLexLoop ascIsNumber (ascParseNumber encF) (s.length + 1) (s.length + 1) L
 
 /-- a `Token` as the parser sees it (`lineno` / `column` only occur in error messages) -/
 def LexToken.toToken (t : LexToken) : Token := ⟨t.type, t.value⟩
